@@ -110,16 +110,22 @@ theorem count_literal_small (lbeg wbeg wend lend : Bool) (lit : Bytes) :
   cases lbeg <;> cases wbeg <;> cases wend <;> cases lend <;>
     simp [atomsOf, catOf, count, countRep, Gen.NCODE]
 
+/-- the same for the clamped count `regcomp` tests (what `rnode_count()` returns in C) -/
+theorem countSat_literal_small (lbeg wbeg wend lend : Bool) (lit : Bytes) :
+    ¬ (countSat (RNode.grp (RNode.grp (catOf (atomsOf lbeg wbeg wend lend lit)) 0 1 1) 0 1 1) + 3 > (Gen.NCODE : Int)) := by
+  cases lbeg <;> cases wbeg <;> cases wend <;> cases lend <;>
+    simp [atomsOf, catOf, countSat, countRepSat, sat, Gen.NCODE]
+
 /-- `regcomp` of `((re))` for a literal pattern -/
 theorem regcomp_literal {re : Bytes} {lbeg wbeg wend lend : Bool} {lit : Bytes}
     (hnul : ∀ c ∈ re, c ≠ 0)
     (h : simple re = some (lbeg, wbeg, wend, lend, lit)) (hne : lit ≠ []) (hlo : LitOk lit) (rflg : Nat) :
     ∃ alloc, regcomp ([40, 40] ++ re ++ [41, 41]) rflg =
       some (some { code := litCode (atomsOf lbeg wbeg wend lend lit), alloc := alloc, flg := rflg }) := by
-  refine ⟨count (RNode.grp (RNode.grp (catOf (atomsOf lbeg wbeg wend lend lit)) 0 1 1) 0 1 1) + 3, ?_⟩
+  refine ⟨countSat (RNode.grp (RNode.grp (catOf (atomsOf lbeg wbeg wend lend lit)) 0 1 1) 0 1 1) + 3, ?_⟩
   unfold regcomp
   rw [parse_literal hnul h hne hlo]
-  simp only [if_neg (count_literal_small lbeg wbeg wend lend lit)]
+  simp only [if_neg (countSat_literal_small lbeg wbeg wend lend lit)]
   simp only [grpnum, grpnum_catOf, emit, emitRep_one, emit_catOf, litCode]
   simp
 
